@@ -275,7 +275,16 @@ class Driver(object):
     # ---------------------------------------------------------- the scheduling point
     def snapshot(self):
         k = self.kernel
+        # what the API reports at this boundary (supervisor.getAllProcessInfo; refused while the daemon shuts down)
+        from supervisor.xmlrpc import RPCError
+        try:
+            api = [[d['group'], d['name'], d['state'], d['statename'], d['pid']] for d in self.rpc.getAllProcessInfo()]
+        except RPCError as e:
+            api = ['fault', e.code]
+        except Exception as e:
+            api = ['error', '%s: %s' % (type(e).__name__, e)]
         return {
+            'api': api,
             'procs': [((p.get_state(), p.pid) if p is not None else (0, 0)) for p in self.procs],
             'live': list(k.live), 'zombies': [z[0] for z in k.zombies],
             'hist': sorted(self.options.pidhistory.keys()), 'mood': self.options.mood,
